@@ -768,4 +768,216 @@ theorem appendOk_seen (t0 t : T) (batch : List Change) (h : appendOk t0 t batch 
   exact List.contains_iff_mem.mp this.2
 
 
+
+/-! ### the attach machinery only appends batch members and keeps the list well-formed -/
+
+theorem has_iff {t : T} {x : Nat} : t.has x = true ↔ x ∈ t.att.map (·.id) := by
+  unfold T.has
+  simp only [List.any_eq_true, List.mem_map]
+  constructor
+  · rintro ⟨c, hc, he⟩; exact ⟨c, hc, by simpa using he⟩
+  · rintro ⟨c, hc, he⟩; exact ⟨c, hc, by simpa using he⟩
+
+/-- invariant of the attach machinery relative to a batch: the attachment list is well-formed, every previous
+id of an attached change is attached or can never be (re)introduced by the batch, the unattached changes are
+batch members that are not attached -/
+structure Inv (batch : List Change) (t : T) : Prop where
+  wf : WFAtt t.att
+  closed : ∀ d ∈ t.att, ∀ p ∈ d.prevs, t.has p = true ∨ ∀ c ∈ batch, c.id ≠ p
+  unb : ∀ u ∈ t.unatt, u ∈ batch ∧ t.has u.id = false
+
+/-- `t'` extends `t` by appending batch members -/
+def Extends (batch : List Change) (t t' : T) : Prop :=
+  t'.root = t.root ∧ ∃ news, t'.att = t.att ++ news ∧ ∀ n ∈ news, n ∈ batch
+
+theorem Extends.refl (batch : List Change) (t : T) : Extends batch t t := ⟨rfl, [], by simp, by simp⟩
+
+theorem Extends.trans {batch : List Change} {a b c : T} (h1 : Extends batch a b) (h2 : Extends batch b c) :
+    Extends batch a c := by
+  obtain ⟨r1, n1, e1, m1⟩ := h1
+  obtain ⟨r2, n2, e2, m2⟩ := h2
+  refine ⟨r2.trans r1, n1 ++ n2, by rw [e2, e1]; simp, ?_⟩
+  intro n hn
+  rcases List.mem_append.mp hn with h | h
+  · exact m1 n h
+  · exact m2 n h
+
+theorem canAttach_true {t : T} {c : Change} {b : Bool} {r : Bool} {w : List (Nat × Nat)}
+    (h : canAttach t c b = (true, r, w)) : (∀ p ∈ c.prevs, t.has p = true) ∧ t.has c.snap = true := by
+  unfold canAttach at h
+  simp only at h
+  split at h
+  · simp at h
+  · rename_i hm
+    split at h
+    · simp at h
+    · rename_i hs
+      refine ⟨?_, by simpa using hs⟩
+      intro p hp
+      have hm' : (c.prevs.filter (fun p => !t.has p)) = [] := by simpa using hm
+      rw [List.filter_eq_nil_iff] at hm'
+      have := hm' p hp
+      simpa using this
+
+/-- the first step of `attach`: append `c` -/
+theorem inv_push {batch : List Change} {t : T} {c : Change} (hi : Inv batch t) (hc : c ∈ batch)
+    (hnot : t.has c.id = false) (hprev : ∀ p ∈ c.prevs, t.has p = true) :
+    Inv batch { t with att := t.att ++ [c], added := t.added ++ [c.id], unatt := t.unatt.filter (·.id != c.id) } := by
+  have hnid : c.id ∉ t.att.map (·.id) := by
+    intro h; rw [← has_iff] at h; rw [h] at hnot; exact Bool.noConfusion hnot
+  have hmono : ∀ x, t.has x = true → ({ t with att := t.att ++ [c], added := t.added ++ [c.id], unatt := t.unatt.filter (·.id != c.id) } : T).has x = true := by
+    intro x hx
+    rw [has_iff] at hx ⊢
+    simp only [List.map_append, List.mem_append]; exact Or.inl hx
+  refine ⟨?_, ?_, ?_⟩
+  · refine WFAtt.snoc hi.wf hnid ?_ ?_
+    · intro h; have := hprev _ h; rw [this] at hnot; exact Bool.noConfusion hnot
+    · intro d hd h
+      rcases hi.closed d hd _ h with h1 | h1
+      · rw [h1] at hnot; exact Bool.noConfusion hnot
+      · exact h1 c hc rfl
+  · intro d hd p hp
+    rcases List.mem_append.mp hd with hd | hd
+    · rcases hi.closed d hd p hp with h1 | h1
+      · exact Or.inl (hmono p h1)
+      · exact Or.inr h1
+    · have : d = c := by simpa using hd
+      subst this
+      exact Or.inl (hmono p (hprev p hp))
+  · intro u hu
+    have hu' := List.mem_filter.mp hu
+    have huid : u.id ≠ c.id := by simpa using hu'.2
+    obtain ⟨hb, hn⟩ := hi.unb u hu'.1
+    refine ⟨hb, ?_⟩
+    cases h : ({ t with att := t.att ++ [c], added := t.added ++ [c.id], unatt := t.unatt.filter (·.id != c.id) } : T).has u.id
+    · rfl
+    · rw [has_iff] at h
+      simp only [List.map_append, List.mem_append, List.map_cons, List.map_nil, List.mem_singleton] at h
+      rcases h with h | h
+      · rw [← has_iff] at h; rw [h] at hn; exact Bool.noConfusion hn
+      · exact absurd h huid
+
+
+theorem attach_inv (batch : List Change) : ∀ (f : Nat) (t : T) (c : Change), Inv batch t → c ∈ batch →
+    t.has c.id = false → (∀ p ∈ c.prevs, t.has p = true) →
+    Inv batch (attach f t c) ∧ Extends batch t (attach f t c) := by
+  intro f
+  induction f with
+  | zero => intro t c hi _ _ _; exact ⟨hi, Extends.refl _ _⟩
+  | succ f ih =>
+    intro t c hi hc hnot hprev
+    have h1 := inv_push hi hc hnot hprev
+    have e1 : Extends batch t { t with att := t.att ++ [c], added := t.added ++ [c.id], unatt := t.unatt.filter (·.id != c.id) } :=
+      ⟨rfl, [c], rfl, fun n hn => (List.mem_singleton.mp hn) ▸ hc⟩
+    -- the cascade over the waiters
+    have hfold : ∀ (ws : List Nat) (s : T), Inv batch s →
+        Inv batch (ws.foldl (fun t w =>
+          match t.unatt.find? (·.id == w) with
+          | none => t
+          | some n =>
+            match canAttach t n false with
+            | (true, _, _) => attach f t n
+            | (false, true, _) => { t with unatt := t.unatt.filter (·.id != n.id) }
+            | _ => t) s) ∧
+        Extends batch s (ws.foldl (fun t w =>
+          match t.unatt.find? (·.id == w) with
+          | none => t
+          | some n =>
+            match canAttach t n false with
+            | (true, _, _) => attach f t n
+            | (false, true, _) => { t with unatt := t.unatt.filter (·.id != n.id) }
+            | _ => t) s) := by
+      intro ws
+      induction ws with
+      | nil => intro s hs; exact ⟨hs, Extends.refl _ _⟩
+      | cons w ws ihw =>
+        intro s hs
+        simp only [List.foldl_cons]
+        have step : Inv batch (match s.unatt.find? (·.id == w) with
+            | none => s
+            | some n =>
+              match canAttach s n false with
+              | (true, _, _) => attach f s n
+              | (false, true, _) => { s with unatt := s.unatt.filter (·.id != n.id) }
+              | _ => s) ∧ Extends batch s (match s.unatt.find? (·.id == w) with
+            | none => s
+            | some n =>
+              match canAttach s n false with
+              | (true, _, _) => attach f s n
+              | (false, true, _) => { s with unatt := s.unatt.filter (·.id != n.id) }
+              | _ => s) := by
+          split
+          · exact ⟨hs, Extends.refl _ _⟩
+          · rename_i n hn
+            have hnm : n ∈ s.unatt := List.mem_of_find?_eq_some hn
+            obtain ⟨hnb, hnh⟩ := hs.unb n hnm
+            split
+            · rename_i hca
+              have := canAttach_true hca
+              exact ih s n hs hnb hnh this.1
+            · refine ⟨⟨hs.wf, hs.closed, ?_⟩, Extends.refl _ _⟩
+              intro u hu
+              exact hs.unb u (List.mem_filter.mp hu).1
+            · exact ⟨hs, Extends.refl _ _⟩
+        obtain ⟨hi2, he2⟩ := ihw _ step.1
+        exact ⟨hi2, step.2.trans he2⟩
+    unfold attach
+    simp only
+    obtain ⟨hi2, he2⟩ := hfold _ _ h1
+    exact ⟨⟨hi2.wf, hi2.closed, hi2.unb⟩, e1.trans he2⟩
+
+
+theorem addOne_inv (batch : List Change) (t : T) (c : Change) (hi : Inv batch t) (hc : c ∈ batch)
+    (hroot : t.root.isSome = true) (hnot : t.has c.id = false) :
+    Inv batch (addOne t c) ∧ Extends batch t (addOne t c) := by
+  unfold addOne
+  split
+  · rename_i h; rw [h] at hroot; simp at hroot
+  · split
+    · rename_i hca
+      exact attach_inv batch _ t c hi hc hnot (canAttach_true hca).1
+    · exact ⟨hi, Extends.refl _ _⟩
+    · refine ⟨⟨hi.wf, hi.closed, ?_⟩, rfl, [], by simp, by simp⟩
+      intro u hu
+      rcases List.mem_append.mp hu with hu | hu
+      · exact hi.unb u hu
+      · have : u = c := by simpa using hu
+        subst this; exact ⟨hc, hnot⟩
+
+theorem addAll_inv (batch : List Change) : ∀ (l : List Change) (t : T), (∀ c ∈ l, c ∈ batch) → Inv batch t →
+    t.root.isSome = true → Inv batch (addAll t l) ∧ Extends batch t (addAll t l) := by
+  intro l
+  induction l with
+  | nil => intro t _ hi _; exact ⟨hi, Extends.refl _ _⟩
+  | cons c l ih =>
+    intro t hl hi hroot
+    unfold addAll
+    simp only [List.foldl_cons]
+    have step : Inv batch (if t.has c.id || t.hasUn c.id then t else addOne t c) ∧
+        Extends batch t (if t.has c.id || t.hasUn c.id then t else addOne t c) := by
+      split
+      · exact ⟨hi, Extends.refl _ _⟩
+      · rename_i hg
+        have hnot : t.has c.id = false := by
+          cases h : t.has c.id
+          · rfl
+          · simp [h] at hg
+        exact addOne_inv batch t c hi (hl c (by simp)) hroot hnot
+    have hroot' : (if t.has c.id || t.hasUn c.id then t else addOne t c).root.isSome = true := by
+      rw [step.2.1]; exact hroot
+    obtain ⟨i2, e2⟩ := ih _ (fun d hd => hl d (List.mem_cons_of_mem _ hd)) step.1 hroot'
+    exact ⟨i2, step.2.trans e2⟩
+
+/-- **add_appends**: the attach machinery only appends batch members and keeps the attachment list well-formed -/
+theorem add_appends (t0 : T) (batch : List Change) (hwf : WFAtt t0.att) (hun : t0.unatt = [])
+    (hroot : t0.root.isSome = true)
+    (hclosed : ∀ d ∈ t0.att, ∀ p ∈ d.prevs, t0.has p = true ∨ ∀ c ∈ batch, c.id ≠ p) :
+    ∃ news, (addTree t0 batch).att = t0.att ++ news ∧ (∀ n ∈ news, n ∈ batch) ∧ WFAtt (t0.att ++ news) := by
+  have hi0 : Inv batch { t0 with added := [] } := ⟨hwf, hclosed, by intro u hu; rw [hun] at hu; simp at hu⟩
+  obtain ⟨i, _, news, e, m⟩ := addAll_inv batch batch { t0 with added := [] } (fun c hc => hc) hi0 hroot
+  refine ⟨news, ?_, m, ?_⟩
+  · unfold addTree; exact e
+  · have := i.wf; rw [e] at this; exact this
+
+
 end AnySync.Tree
